@@ -114,7 +114,7 @@ func (x *Exec) run(res *FuncResult) {
 		x.useLemma(st, u)
 	}
 	if c.Decreases != nil {
-		x.wrapCfail("decreases of "+c.Key, func() { x.measure0 = env.tr(c.Decreases.Expr).T })
+		x.wrapCfail("decreases of "+c.Key, func() { x.measure0 = x.measureOf(c, env) })
 	}
 	// cover: the precondition (with the global invariant) must be satisfiable
 	x.Obls = append(x.Obls, &Obligation{Name: fi.Key + "/cover#pre", Func: fi.Key, Kind: "cover", Label: "pre", Canary: true,
@@ -296,7 +296,7 @@ func (w *World) lemmaAxiom(x *Exec, lc *Contract, lf *FuncInfo) *Term {
 func (w *World) ContractedFuncs() []string {
 	var out []string
 	for _, c := range w.CS.Order {
-		if c.Kind == "func" || c.Kind == "lemma" {
+		if c.Kind == "func" || c.Kind == "lemma" || c.Kind == "spec" {
 			if fi, ok := w.Funcs[c.Key]; ok && fi.Decl != nil {
 				if c.Flags["helper"] && !c.Flags["verify"] && len(c.Ensures) == 0 {
 					continue
